@@ -363,7 +363,7 @@ def op_strategy():
     held_or_not = st.one_of(uref, sref, sref, cref)
     add1 = st.tuples(st.just("add"), st.lists(uref, min_size=1, max_size=1), st.just(False), st.booleans()).map(list)
     addn = st.tuples(st.just("add"), st.lists(st.one_of(uref, uref, sref), min_size=0, max_size=4), st.just(False), st.just(True)).map(list)
-    addf = st.tuples(st.just("add"), st.lists(uref, min_size=1, max_size=3), st.just(True), st.booleans()).map(list)
+    addf = st.tuples(st.just("add"), st.lists(st.one_of(uref, uref, sref), min_size=1, max_size=3), st.just(True), st.booleans()).map(list)
     rm1 = st.tuples(st.just("remove"), st.lists(held_or_not, min_size=1, max_size=1), st.booleans()).map(list)
     rmn = st.tuples(st.just("remove"), st.lists(held_or_not, min_size=0, max_size=3), st.just(True)).map(list)
     rep = st.tuples(st.just("replace"), held_or_not, st.one_of(uref, uref, sref), st.booleans()).map(list)
